@@ -284,12 +284,12 @@ def rule_eosflow(run):
     cur, blocked = h, None
     while cur in pm:
         par = pm[cur]
-        if isinstance(par, ast.If) and cur in par.orelse and norm(par.test) == 'self.multi':
+        if isinstance(par, ast.If) and cur in par.orelse and any(is_self_attr(x, 'multi') for x in ast.walk(par.test)):
             blocked = par
         cur = par
     key2 = 't2data.eos_json :: simulator string consulted whenever MULTI gives no EOS'
     if blocked is not None:
-        run.violated(key2, 'the simulator string is only consulted in the else-branch of `if self.multi:`; a model with a '
+        run.violated(key2, 'the simulator string is only consulted in the else-branch of `if %s:`; a model with a ' % norm(blocked.test) +
                      'MULTI section whose EOS field is blank/absent and simulator "AUTOUGH2.2EW" is reported as "EOS not detected"',
                      where=fi.where(blocked))
     else:
